@@ -368,7 +368,7 @@ func c07ExecGate(sc c07Gate) (string, map[string]bool) {
 			if n >= wantDelivered {
 				break
 			}
-			if time.Now().After(deadline) {
+			if deadlinePassed(deadline) {
 				return fmt.Sprintf("threshold %d covers %d events but only %d were delivered (lost wake-up)", final, wantDelivered, n), labels
 			}
 			time.Sleep(200 * time.Microsecond)
@@ -570,7 +570,7 @@ func c07ExecInteg(sc c07Integ) (string, map[string]bool) {
 			if n >= k {
 				return true
 			}
-			if time.Now().After(deadline) {
+			if deadlinePassed(deadline) {
 				return false
 			}
 			time.Sleep(time.Millisecond)
@@ -579,7 +579,7 @@ func c07ExecInteg(sc c07Integ) (string, map[string]bool) {
 	// wait until the library has started over under a newer cluster map: it re-reads every failover log then
 	waitRestart := func(since time.Duration) bool {
 		deadline := time.Now().Add(5 * time.Second)
-		for time.Now().Before(deadline) {
+		for !deadlinePassed(deadline) {
 			for _, en := range c.Log() {
 				if en.Cmd == cmdGetFailoverLog && en.T > since {
 					return true
@@ -639,7 +639,7 @@ func c07ExecInteg(sc c07Integ) (string, map[string]bool) {
 		}
 		deadline := time.Now().Add(5 * time.Second)
 		for nConsumed(vb) < want {
-			if time.Now().After(deadline) {
+			if deadlinePassed(deadline) {
 				return fmt.Sprintf("vb %d: every listed copy has reported persisted >= %d under one vbUUID (table %s), but only %d of the %d covered events were delivered", vb, threshold[vb], c07ModelStr(table[vb]), nConsumed(vb), want)
 			}
 			time.Sleep(500 * time.Microsecond)
@@ -990,7 +990,7 @@ func c07ExecStartup(sc c07Startup) string {
 	want := sc.NVb * sc.Events
 	deadline := time.Now().Add(6 * time.Second)
 	for cons.count() < want {
-		if time.Now().After(deadline) {
+		if deadlinePassed(deadline) {
 			return fmt.Sprintf("every copy has reported persisted seq %d (the same in every poll round, interval %d ms) since before the session opened; %d events with seqnos <= %d were streamed, %d reached the consumer within 6 s (checkpoint load took %d ms): the threshold that covers them was never applied - lost wake-up at start-up", sc.Persist, sc.PollMs, want, sc.Events, cons.count(), sc.LoadDelayMs)
 		}
 		time.Sleep(time.Millisecond)
